@@ -104,3 +104,23 @@ def kf_tok_empty_delims(case, o, kind, cfg, consts):
     want = [(-1 if t is None else t) for t in ref]
     i = next((k for k in range(len(want)) if toks[k] != want[k]), None)
     return i is not None and m['sets'][i] == [] and toks[i] == -1
+
+@pred
+def kf_tok_unterm_writes_past(case, o, kind, cfg, consts):
+    # "dest is unterminated" exits that do "*dmaxp = 0; *dest = 0" with dest == original dest + dmax: the token-end phase of both
+    # functions, and (wcstok_s only) the leading-delimiter phase
+    m = case.meta
+    if m.get('cls') != 'tok' or m['dm_rel'] != 'unterm_slack' or kind != 'write-past-dmax': return False
+    import fam_copy
+    w = m['w']
+    after = fam_copy.dec(o.blocks[0], w); before = fam_copy.dec(case.blocks[0][1], w)
+    if not (after[m['dmax']] == 0 and after[m['dmax'] + 1:] == before[m['dmax'] + 1:]): return False
+    # which phase ran out of length: the one the last call was in when it hit dest[dmax]
+    vals = [int(v) for v in o.ret.split(',')]; toks = vals[0::3]
+    first_null = toks.index(-1) if -1 in toks else len(toks) - 1
+    D = m['sets'][first_null]
+    # position where that call started
+    start = 0 if first_null == 0 else vals[3 * (first_null - 1) + 2]
+    rest = m['chars'][start:] if start >= 0 else []
+    in_token_phase = any(ch not in D for ch in rest) and len(D) > 0
+    return in_token_phase or case.func == 'wcstok_seq'
